@@ -429,5 +429,5 @@ def run(ctx: Ctx) -> None:
     drive(ctx, case_schedule2, 70, 70, stream=1, part='schedules')
     if ctx.thorough or ctx.part == 'schedules':
         drive(ctx, case_schedule3, 1680, 1680, stream=2, part='schedules')
-    drive(ctx, case_free_threads, 30, 300, stream=3, part='threads')
     drive(ctx, case_contexts, 60, 600, stream=4, part='threads')
+    drive(ctx, case_free_threads, 30, 300, stream=3, part='threads')
